@@ -272,7 +272,7 @@ def run_once(shape, a_index, k, W_extra, sched, seed, hold="quiescent"):
         if nid == a:
             OP.arm()
 
-    desc = {"seed": seed, "n": len(ir.nodes), "W": len(P) + W_extra, "sched": sched, "perturb": "none", "delays": "none"}
+    desc = {"seed": seed, "n": len(ir.nodes), "W": len(P) + len(slow) + W_extra, "sched": sched, "perturb": "none", "delays": "none"}
     with OP:
         def before_run(R_):
             holder["R"] = R_
@@ -507,7 +507,7 @@ def run_twice_preempted(shape, a_index, b_index, k1, k2, W_extra, sched, seed):
         elif nid == b:
             OP.arm_b()
 
-    desc = {"seed": seed, "n": len(ir.nodes), "W": len(P) + W_extra, "sched": sched, "perturb": "none", "delays": "none"}
+    desc = {"seed": seed, "n": len(ir.nodes), "W": len(P) + len(slow) + W_extra, "sched": sched, "perturb": "none", "delays": "none"}
     with OP:
         def before_run(R_):
             holder["R"] = R_
